@@ -4,7 +4,7 @@ import ast
 from fractions import Fraction as F
 
 from .. import assemblers as A
-from .. import bary, idxspace, p1dofs, rwgdofs, shapesets as S, sparse, spaces, symex
+from .. import bary, idxspace, misc_guards, p1dofs, rwgdofs, shapesets as S, sparse, spaces, symex
 from ..alg import V, vsum
 from ..core import AnalysisError
 from ..src import arg_names, unparse
@@ -247,6 +247,7 @@ def run(ctx):
     rwgdofs.rwg_dof_decisions(ctx)
     p1dofs.p1_dof_decisions(ctx)
     idxspace.index_spaces(ctx)
+    misc_guards.dof_counts(ctx)
     spaces.normal_multipliers(ctx)
     spaces.coefficient_maps(ctx)
     c16.colouring(ctx)
